@@ -193,6 +193,9 @@ func hexes(xs [][]byte) string {
 	s := make([]string, len(xs))
 	for i, x := range xs {
 		s[i] = vh.Hex(x)
+		if len(x) == 0 {
+			s[i] = "z" // a lone "-" is the empty list
+		}
 	}
 	return vh.List(s)
 }
@@ -760,7 +763,11 @@ func parseOp(s string) op {
 	case "textArr":
 		o.bss = [][]byte{}
 		for _, x := range list() {
-			o.bss = append(o.bss, vh.UnHex(x))
+			if x == "z" {
+				o.bss = append(o.bss, []byte{})
+			} else {
+				o.bss = append(o.bss, vh.UnHex(x))
+			}
 		}
 	}
 	return o
